@@ -44,12 +44,13 @@ def triples_of(case):
     return [tuple(t) for t in case['triples']]
 
 
-def faults_for(triples, ks, with_eval=True):
+def faults_for(triples, ks, with_eval=True, fin=False):
     """Every distinct single fault that can be designated on one of the triples (simplest first)."""
     out = {}
     for t in triples:
         for at in P.FAULT_KINDS:
             if at in ('val.params', 'evaluate') and not with_eval: continue
+            if at == 'lrn.finish' and not fin: continue
             for k in (ks if at in ('env.read', 'predict', 'learn') else (0,)):
                 f = {'at': at, 'k': k, 'on': list(t)}
                 out.setdefault(P.fault_text(f), f)
@@ -74,8 +75,13 @@ def touches(f, t):
            (at == 'val.params' and f['on'][2] == t[2])
 
 
+def cleanup(f, t):
+    """A finish() fault sits on the learner of t for the environment of t (it fires only if coba calls finish on that copy)."""
+    return f['at'] == 'lrn.finish' and f['on'][0] == t[0] and f['on'][1] == t[1]
+
+
 def build(case):
-    E, L, V = P.build_components(case.get('faults') or (), case.get('chunk'))
+    E, L, V = P.build_components(case.get('faults') or (), case.get('chunk'), bool(case.get('fin')))
     form = case['form']
     if form == 'triples':
         exp = Experiment([(E[e], L[l], V[v]) for e, l, v in case['triples']])
@@ -127,7 +133,8 @@ def execute(case):
         r = {c: x for c, x in zip(cols, vals) if c not in ID_COLS and not is_none(x)}
         ident = (r.get('env'), r.get('lrn'), r.get('val', 'V0'))
         rows.setdefault(ident, []).append(r)
-    return {'rows': rows, 'log': [str(m) for m in log], 'trained': [i for i, l in enumerate(L) if not l.untouched()]}
+    return {'rows': rows, 'log': [str(m) for m in log], 'trained': [i for i, l in enumerate(L) if l.hist or l.calls],
+            'finished': [i for i, l in enumerate(L) if l.finished]}
 
 
 def ident_of(t): return (f'E{t[0]}', f'L{t[1]}', f'V{t[2]}')
@@ -155,7 +162,7 @@ def findings(case, alone):
     form = case['form']
     out = []
     ex = execute(case)
-    info = {'statuses': [], 'nfault_entries': 0, 'reached': 0}
+    info = {'statuses': [], 'nfault_entries': 0, 'reached': 0, 'finish': (0, 0)}
     if 'exc' in ex:
         name, where, text = ex['exc']
         out.append((f'raises {name}@{where}', '', f'Experiment(...).run() raised {text}'))
@@ -182,11 +189,11 @@ def findings(case, alone):
                             f'triple {t}: {P.fault_text(hit[0])} is raised inside its evaluation, yet {len(got)} rows were recorded: {got[:2]}'))
             continue
         ref = alone(case, t)
-        par = [f for f in faults if touches(f, t)]
-        info['statuses'].append(('P' if par else 'H', len(got)))
+        par = [f for f in faults if touches(f, t) or cleanup(f, t)]
+        info['statuses'].append(('C' if any(cleanup(f, t) for f in par) else 'P' if par else 'H', len(got)))
         if ref is None: continue                          # the alone-run itself is broken: reported by the single-triple case
         if not got:
-            if par: continue                              # not demanded: rows of a triple one of whose params tasks failed
+            if par: continue                              # not demanded: rows of a triple one of whose params tasks / whose clean-up failed
             out.append(('non-failing triple has no rows', share(t), f'triple {t} has no rows; alone it yields {len(ref)} rows'))
         elif not same_rows(got, ref):
             i = next((i for i, (x, y) in enumerate(zip(got, ref)) if not same_rows([x], [y])), min(len(got), len(ref)))
@@ -207,9 +214,22 @@ def findings(case, alone):
         out.append(('exception not reported in the log', 'fewer log entries than failing evaluations',
                     f'{len(failing)} evaluations fail but only {len(entries)} log entries carry a fault text'))
 
+    # every exception raised by a clean-up call (finish) that coba made is reported too
+    marks = [m for m in log if P.FINISH_MARK in m]
+    raising = [m for m in marks if 'raises>' in m]
+    fin_texts = {P.fault_text(f) for f in faults if f['at'] == 'lrn.finish'} | {P.FINISH_BROKEN}
+    fin_entries = [m for m in log if P.FINISH_MARK not in m and any(x in m for x in fin_texts)]
+    info['finish'] = (len(marks) - len(raising), len(raising))
+    if len(fin_entries) < len(raising):
+        out.append(('exception not reported in the log', 'raised by finish()',
+                    f'{len(raising)} finish() calls raised but only {len(fin_entries)} log entries carry their text; calls: {raising}'))
+
     for l in ex['trained']:
         if lcount.get(l, 0) > 1:
             out.append(('learner listed in several triples was trained by run()', '', f'learner L{l} is listed in {lcount[l]} triples and was asked to predict/learn on the caller\'s object'))
+    for l in ex['finished']:
+        if lcount.get(l, 0) > 1:
+            out.append(('learner listed in several triples was finished by run()', '', f'learner L{l} is listed in {lcount[l]} triples and finish() was called on the caller\'s object'))
     return out, info
 
 
@@ -271,14 +291,16 @@ class C03(Check):
         modes = [(None, 0), ('shared', 0)] if quick else [(None, 0), ('per-env', 0), ('shared', 0), ('shared', 2)]
 
         def expand(base, trip, with_eval=True, modes=modes, ks=ks):
-            fs = faults_for(trip, ks, with_eval)
-            for chunk, mt in modes:
-                b = dict(base)
-                if chunk: b['chunk'] = chunk
-                if mt: b['mt'] = mt
-                yield {**b, 'faults': []}
-                for f in fs:
-                    yield {**b, 'faults': [f]}
+            for fin in (False, True):                 # plain learners / learners with a finish() clean-up hook
+                fs = faults_for(trip, ks, with_eval, fin)
+                for chunk, mt in modes:
+                    b = dict(base)
+                    if fin: b['fin'] = True
+                    if chunk: b['chunk'] = chunk
+                    if mt: b['mt'] = mt
+                    yield {**b, 'faults': []}
+                    for f in fs:
+                        yield {**b, 'faults': [f]}
 
         def lists(n):
             for trip in itertools.permutations(ALL8, n):
@@ -311,10 +333,11 @@ class C03(Check):
         # two faults
         for n in (1, 2, 3):
             for trip in lists(n):
-                fs = faults_for(trip, (0, 1))
-                for chunk in (None, 'shared'):
+                for chunk, fin in ((None, False), ('shared', True)):
+                    fs = faults_for(trip, (0, 1), True, fin)
                     for f, g in itertools.combinations(fs, 2):
                         c = {'form': 'triples', 'triples': trip, 'faults': [f, g]}
+                        if fin: c['fin'] = True
                         if chunk: c['chunk'] = chunk
                         yield c
 
@@ -328,9 +351,9 @@ class C03(Check):
         """Rows of triple t run alone (same tuple style, same kind of environment object, no fault, fresh components);
         None when that run is unusable."""
         if not hasattr(self, '_alone'): self._alone = {}
-        key = ('pairs' if case['form'] == 'pairs' else 'triples', 'per-env' if case.get('chunk') else None, tuple(t))
+        key = ('pairs' if case['form'] == 'pairs' else 'triples', 'per-env' if case.get('chunk') else None, bool(case.get('fin')), tuple(t))
         if key not in self._alone:
-            ex = execute({'form': key[0], 'chunk': key[1], 'triples': [list(t)], 'faults': []})
+            ex = execute({'form': key[0], 'chunk': key[1], 'fin': key[2], 'triples': [list(t)], 'faults': []})
             rows = None if 'exc' in ex else ex['rows'].get(ident_of(t)) if set(ex['rows']) <= {ident_of(t)} else None
             self._alone[key] = rows or None
         return self._alone[key]
@@ -343,6 +366,7 @@ class C03(Check):
             yield {**case, 'faults': [faults[0]]}
             yield {**case, 'faults': [faults[1]]}
         if len(faults) == 1: yield {**case, 'faults': []}
+        if case.get('fin') and not any(f['at'] == 'lrn.finish' for f in faults): yield {k: v for k, v in case.items() if k != 'fin'}
         if case.get('mt'): yield {k: v for k, v in case.items() if k != 'mt'}
         if case.get('chunk'):
             yield {k: v for k, v in case.items() if k not in ('chunk', 'mt')}
@@ -368,7 +392,7 @@ class C03(Check):
         faults = case.get('faults') or []
         if len(trip) == 1 and not faults and self.alone(case, trip[0]) is None:
             found.append(('single triple run alone yields no usable rows', '', f'triple {trip[0]} run alone without faults gives no rows (or raises)'))
-        sig = (tuple(info['statuses']), info['nfault_entries'])
+        sig = (tuple(info['statuses']), info['nfault_entries'], info['finish'])
         self._memo[key] = (bool(found), sig)
         if not found: return False, sig
         if depth < 12:
@@ -378,7 +402,8 @@ class C03(Check):
         if faults:
             failing = any(reachable(f, t) for f in faults for t in trip)
             needs.append('an evaluation fails' if failing else 'a params property raises' if any(f['at'] in PARAM_FAULTS for f in faults)
-                         else 'an unreached fault is armed')
+                         else 'finish() raises' if any(f['at'] == 'lrn.finish' for f in faults) else 'an unreached fault is armed')
+        if case.get('fin'): needs.append('learner with a finish() hook')
         if case.get('chunk'): needs.append('environments piped into a Chunk')
         if case.get('mt'): needs.append('maxtasksperchunk>0')
         if case.get('quiet'): needs.append('quiet=True')
